@@ -44,11 +44,11 @@ def impl_def(t, ty="Imp"):
         post = " ".join(a.impl_post() for a in m.args)
         has_post = any(isinstance(a, (gen.ACallback, gen.AIter)) for a in m.args)
         body = [f"        {this}", "        let mut hh = fnv();", f"        {digest}",
-                f"        let h = this.core.enter({m.idx}, hh.get());", f"        {saw}"]
+                f"        let h = this.core.enter({m.gid}, hh.get());", f"        {saw}"]
         if has_post:
             body.append("        let mut post = fnv();")
             body.append(f"        {post}")
-            body.append(f"        this.core.enter_post({m.idx}, post.get());")
+            body.append(f"        this.core.enter_post({m.gid}, post.get());")
         else:
             body.append(f"        {post}")
         body.append(f"        {m.ret.impl_expr()}")
@@ -75,50 +75,55 @@ def call_expr(m, obj, side):
     return e
 
 
-def arm(t, m):
-    """One match arm of the driver: perform method m on both sides and compare."""
-    L = [f"            {m.idx} => {{", f"                let mname = \"{t.name}::{m.name}\";", "                let mut g = Gen::new(seed);"]
+def call_block(t, m, get_w, get_r, ind="                "):
+    """Perform method m on both sides and compare. `get_w`/`get_r` are statements binding `ow`/`or_`."""
+    L = [f"{ind}let mname = \"{t.name}::{m.name}\";", f"{ind}let mut g = Gen::new(seed);"]
     for a in m.args:
-        L.append("                " + a.setup())
+        L.append(ind + a.setup())
     nd = " || ".join([a.nondefault() for a in m.args if a.wrapped] + ([m.ret.nondefault()] if m.ret.wrapped else [])) or "false"
+    L.append(ind + get_w)
+    L.append(ind + get_r)
+    L.append(f"{ind}let rw = {call_expr(m, 'ow', 'w')};")
+    L.append(f"{ind}let rr = {call_expr(m, 'or_', 'r')};")
     if m.recv == "own":
-        L.append("                let ow = o.take().unwrap(); let or_ = r.take().unwrap();")
-        L.append(f"                let rw = {call_expr(m, 'ow', 'w')};")
-        L.append(f"                let rr = {call_expr(m, 'or_', 'r')};")
-        L.append("                fl.transfers += 1;")
-    else:
-        L.append("                let ow = o.as_mut().unwrap(); let or_ = r.as_mut().unwrap();")
-        L.append(f"                let rw = {call_expr(m, 'ow', 'w')};")
-        L.append(f"                let rr = {call_expr(m, 'or_', 'r')};")
+        L.append(f"{ind}fl.transfers += 1;")
     # 1. routing / state / log
-    L.append("                check_step(sw, sr, wid, mname)?;")
+    L.append(f"{ind}check_step(sw, sr, wid, mname)?;")
     # 2. addresses of reference-like arguments as seen by the wrapped implementor
     runs_impl = not (m.default_body and not m.overridden)  # otherwise the trait's provided body runs on both sides
     exp = [e for a in m.args for e in a.expect_ptrs()] if runs_impl else []
     if exp:
-        L.append(f"                {{ let seen = sw.take_ptrs(); let want: Vec<(usize, usize)> = vec![{', '.join(exp)}]; if seen != want {{ return Err(Fail::new(\"C02:arg-address\", format!(\"method {{}}: reference-like arguments arrived as (address,len) {{:x?}}, the caller passed {{:x?}}\", mname, seen, want))); }} }}")
+        L.append(f"{ind}{{ let seen = sw.take_ptrs(); let want: Vec<(usize, usize)> = vec![{', '.join(exp)}]; if seen != want {{ return Err(Fail::new(\"C02:arg-address\", format!(\"method {{}}: reference-like arguments arrived as (address,len) {{:x?}}, the caller passed {{:x?}}\", mname, seen, want))); }} }}")
     # 3. returns
-    L.append(f"                let nondefault = {nd};")
-    L.append("                " + m.ret.compare())
+    L.append(f"{ind}let nondefault = {nd};")
+    L.append(ind + m.ret.compare())
     # 4. caller-visible effects on arguments
     for a in m.args:
         if a.after() and runs_impl:
-            L.append("                " + a.after())
-    L.append("                if nondefault { fl.wrapped_nondefault = true; }")
+            L.append(ind + a.after())
+    L.append(f"{ind}if nondefault {{ fl.wrapped_nondefault = true; }}")
     if m.ret.transfers():
-        L.append("                fl.transfers += 1;")
+        L.append(f"{ind}fl.transfers += 1;")
         if isinstance(m.ret, gen.RChild) and m.ret.mode != "owned":
-            L.append("                fl.borrowed_children += 1;")
+            L.append(f"{ind}fl.borrowed_children += 1;")
         else:
-            L.append("                fl.ctx_derived += 1;")
+            L.append(f"{ind}fl.ctx_derived += 1;")
     if isinstance(m.ret, (gen.RIntRes, gen.RResChild)):
-        L.append("                fl.int_result_calls += 1;")
+        L.append(f"{ind}fl.int_result_calls += 1;")
     if m.mutating() or m.recv == "own":
-        L.append("                fl.mutated = true;")
+        L.append(f"{ind}fl.mutated = true;")
     elif not isinstance(m.ret, gen.RUnit):
-        L.append("                if fl.mutated { fl.mutated_then_read = true; }")
-    L.append("            }")
+        L.append(f"{ind}if fl.mutated {{ fl.mutated_then_read = true; }}")
     return "\n".join(L)
+
+
+def arm(t, m):
+    """One match arm of the single-trait driver."""
+    if m.recv == "own":
+        gw, gr = "let ow = o.take().unwrap();", "let or_ = r.take().unwrap();"
+    else:
+        gw, gr = "let ow = o.as_mut().unwrap();", "let or_ = r.as_mut().unwrap();"
+    return f"            {m.idx} => {{\n" + call_block(t, m, gw, gr) + "\n            }"
 
 
 def driver_def(t):
@@ -157,31 +162,39 @@ def kinds_def(t):
     """run_case: build the wrapped object of the requested container kind and drive it."""
     T = t.name
     arms = []
+    getters = ", ".join(f"vt.{m.name}() as usize" for m in t.methods)
+    n = len(t.methods)
+
+    def build(expr):
+        # what trait_obj! does, in two steps, with the C04 oracles in between
+        return (f"let c = {{ use cglue::from2::From2; {T}Base::from2({expr}) }}; let o = into_opaque_checked(c)?;"
+                f" {{ let vt = o.get_vtbl(); vtable_words_check(vt as *const _ as *const usize, ::core::mem::size_of_val(vt), &[{getters}], \"{T}\")?; }}")
+
     for i, k in enumerate(t.kinds()):
         if k == "box":
-            body = f"let o = trait_obj!(imp_w as {T}); drive(o, imp_r, &sw, &sr, WID, ops, &mut fl, &no_ctx)?;"
+            body = f"{build('imp_w')} drive(o, imp_r, &sw, &sr, WID, ops, &mut fl, &no_ctx)?;"
         elif k == "cbox":
-            body = f"let o = trait_obj!(CBox::from(imp_w) as {T}); drive(o, imp_r, &sw, &sr, WID, ops, &mut fl, &no_ctx)?;"
+            body = f"{build('CBox::from(imp_w)')} drive(o, imp_r, &sw, &sr, WID, ops, &mut fl, &no_ctx)?;"
         elif k == "box_arcctx":
-            body = (f"let o = trait_obj!((imp_w, CArc::<CtxPayload>::from(ctx.clone())) as {T});"
+            body = (f"{build('(imp_w, CArc::<CtxPayload>::from(ctx.clone()))')}"
                     f" drive(o, imp_r, &sw, &sr, WID, ops, &mut fl, &arc_live)?;")
         elif k == "box_cntctx":
-            body = (f"let o = trait_obj!((imp_w, CountCtx::new(&cnt)) as {T});"
+            body = (f"{build('(imp_w, CountCtx::new(&cnt))')}"
                     f" drive(o, imp_r, &sw, &sr, WID, ops, &mut fl, &cnt_live)?;")
         elif k == "mut":
-            body = (f"let mut w = imp_w; {{ let o = trait_obj!(&mut w as {T}); drive(o, imp_r, &sw, &sr, WID, ops, &mut fl, &no_ctx)?; }}"
+            body = (f"let mut w = imp_w; {{ {build('&mut w')} drive(o, imp_r, &sw, &sr, WID, ops, &mut fl, &no_ctx)?; }}"
                     f" borrowed_not_dropped(wtok)?; drop(w);")
         elif k == "mut_arcctx":
-            body = (f"let mut w = imp_w; {{ let o = trait_obj!((&mut w, CArc::<CtxPayload>::from(ctx.clone())) as {T}); drive(o, imp_r, &sw, &sr, WID, ops, &mut fl, &arc_live)?; }}"
+            body = (f"let mut w = imp_w; {{ {build('(&mut w, CArc::<CtxPayload>::from(ctx.clone()))')} drive(o, imp_r, &sw, &sr, WID, ops, &mut fl, &arc_live)?; }}"
                     f" borrowed_not_dropped(wtok)?; drop(w);")
         elif k == "ref":
-            body = (f"let w = imp_w; {{ let o = trait_obj!(&w as {T}); drive(o, imp_r, &sw, &sr, WID, ops, &mut fl, &no_ctx)?; }}"
+            body = (f"let w = imp_w; {{ {build('&w')} drive(o, imp_r, &sw, &sr, WID, ops, &mut fl, &no_ctx)?; }}"
                     f" borrowed_not_dropped(wtok)?; drop(w);")
         elif k == "ref_arcctx":
-            body = (f"let w = imp_w; {{ let o = trait_obj!((&w, CArc::<CtxPayload>::from(ctx.clone())) as {T}); drive(o, imp_r, &sw, &sr, WID, ops, &mut fl, &arc_live)?; }}"
+            body = (f"let w = imp_w; {{ {build('(&w, CArc::<CtxPayload>::from(ctx.clone()))')} drive(o, imp_r, &sw, &sr, WID, ops, &mut fl, &arc_live)?; }}"
                     f" borrowed_not_dropped(wtok)?; drop(w);")
         elif k == "arcsome":
-            body = f"let o = trait_obj!(CArcSome::from(imp_w) as {T}); drive(o, imp_r, &sw, &sr, WID, ops, &mut fl, &no_ctx)?;"
+            body = f"{build('CArcSome::from(imp_w)')} drive(o, imp_r, &sw, &sr, WID, ops, &mut fl, &no_ctx)?;"
         else:
             raise ValueError(k)
         arms.append(f"        {i} => {{ {body} }}")
@@ -240,3 +253,232 @@ impl Imp {
 
 def module_src(t):
     return "\n".join([HEADER, trait_def(t), imp_struct(), impl_def(t), driver_def(t), kinds_def(t)])
+
+
+# ---------------------------------------------------------------------------------------------
+# groups
+
+class Group:
+    def __init__(self, name, members, n_mand, enabled):
+        """members: list of (module name, Trait); first n_mand are mandatory; enabled: bitmask over optional"""
+        self.name, self.members, self.n_mand, self.enabled = name, members, n_mand, enabled
+
+    def mand(self):
+        return self.members[:self.n_mand]
+
+    def opt(self):
+        return self.members[self.n_mand:]
+
+    def kinds(self):
+        ts = [t for (_, t) in self.members]
+        k = ["box", "box_arcctx"]
+        if not any(t.has_own() for t in ts):
+            k += ["mut"]
+            if not any(t.has_mut() for t in ts):
+                k += ["ref"]
+        return k
+
+    def describe(self):
+        return {"group": self.name, "mandatory": [t.name for (_, t) in self.mand()], "optional": [t.name for (_, t) in self.opt()],
+                "enabled": [t.name for i, (_, t) in enumerate(self.opt()) if self.enabled >> i & 1], "containers": self.kinds()}
+
+
+def group_src(g):
+    T = g.name
+    mods = sorted(set(m for (m, _) in g.members))
+    uses = "".join(f"use super::{m}::*;\n" for m in mods)
+    mand_names = [t.name for (_, t) in g.mand()]
+    opt_names = [t.name for (_, t) in g.opt()]
+    mand_txt = "{}" if not mand_names else (mand_names[0] if len(mand_names) == 1 else "{ " + ", ".join(mand_names) + " }")
+    decl = f"cglue_trait_group!({T}, {mand_txt}, {{ {', '.join(opt_names)} }});"
+    en = [n for i, n in enumerate(opt_names) if g.enabled >> i & 1]
+    impls = "\n".join(impl_def(t, "GImp") for (_, t) in g.members)
+    impl_group = f"cglue_impl_group!(GImp, {T}, {{ {', '.join(en)} }});"
+    nopt = len(opt_names)
+
+    # ---- actions -------------------------------------------------------------------------------
+    actions = []  # (description, code)
+    sorted_mand = sorted(mand_names)
+    sorted_opt = sorted(opt_names)
+
+    def subset_names(mask):
+        return [n for i, n in enumerate(opt_names) if mask >> i & 1]
+
+    def ok(mask):
+        return mask & g.enabled == mask
+
+    ind = "                "
+    for ti, (_, t) in enumerate(g.members):
+        is_mand = ti < g.n_mand
+        oi = ti - g.n_mand
+        for m in t.methods:
+            gr_own, gr_ref = "let or_ = r.take().unwrap();", "let or_ = r.as_mut().unwrap();"
+            # direct on the group (mandatory traits only)
+            if is_mand:
+                if m.recv == "own":
+                    code = call_block(t, m, "let ow = g_.take().unwrap();", gr_own, ind)
+                else:
+                    code = call_block(t, m, "let ow = g_.as_mut().unwrap();", gr_ref, ind)
+                actions.append((f"direct {t.name}::{m.name}", code))
+            # through casts: minimal subset, plus the full enabled set as a superset
+            masks = []
+            if not is_mand:
+                masks.append(1 << oi)
+                if g.enabled | (1 << oi) != (1 << oi):
+                    masks.append(g.enabled | (1 << oi))
+            elif nopt:
+                masks.append(g.enabled if g.enabled else 1)
+            for mask in masks:
+                names = " + ".join(subset_names(mask))
+                if not names:
+                    continue
+                good = ok(mask)
+                refuse = f"return Err(Fail::new(\"C08:refused\", format!(\"{{}} for traits {names} refused although all of them are enabled\", \"{{PATH}}\")));"
+                accept = f"return Err(Fail::new(\"C08:accepted\", format!(\"{{}} for traits {names} succeeded although not all of them are enabled\", \"{{PATH}}\")));"
+                if not good:
+                    # negative cells: the request must be refused and leave the group usable
+                    actions.append((f"as_ref refused {names}", f"{ind}if as_ref!(g_.as_ref().unwrap() impl {names}).is_some() {{ {accept.replace('{PATH}', 'as_ref')} }} fl.casts += 1;"))
+                    actions.append((f"cast refused {names}", f"{ind}if cast!(g_.take().unwrap() impl {names}).is_some() {{ {accept.replace('{PATH}', 'cast')} }} fl.casts += 1; r.take();"))
+                    continue
+                if m.recv in ("ref", "pinref"):
+                    code = (f"{ind}let ow_ = match as_ref!(g_.as_ref().unwrap() impl {names}) {{ Some(x) => x, None => {{ {refuse.replace('{PATH}', 'as_ref')} }} }}; fl.casts += 1;\n"
+                            + call_block(t, m, "let ow = ow_;", gr_ref, ind).replace("::core::pin::Pin::new(&*ow)", "::core::pin::Pin::new(ow)"))
+                    actions.append((f"as_ref({names}) {t.name}::{m.name}", code))
+                if m.recv in ("ref", "pinref", "mut", "pinmut"):
+                    code = (f"{ind}let ow = match as_mut!(g_.as_mut().unwrap() impl {names}) {{ Some(x) => x, None => {{ {refuse.replace('{PATH}', 'as_mut')} }} }}; fl.casts += 1;\n"
+                            + call_block(t, m, "", gr_ref, ind))
+                    actions.append((f"as_mut({names}) {t.name}::{m.name}", code))
+                    code = (f"{ind}let mut c_ = match cast!(g_.take().unwrap() impl {names}) {{ Some(x) => x, None => {{ {refuse.replace('{PATH}', 'cast')} }} }}; fl.casts += 1;\n"
+                            f"{ind}{{\n" + call_block(t, m, "let ow = &mut c_;", gr_ref, ind + "    ") + f"\n{ind}}}\n{ind}g_ = Some(c_.upcast());")
+                    actions.append((f"cast({names})+upcast {t.name}::{m.name}", code))
+                # final form (terminal)
+                if m.recv == "own":
+                    code = (f"{ind}let f_ = match into!(g_.take().unwrap() impl {names}) {{ Some(x) => x, None => {{ {refuse.replace('{PATH}', 'into')} }} }}; fl.casts += 1;\n"
+                            + call_block(t, m, "let ow = f_;", gr_own, ind))
+                    actions.append((f"into({names}) {t.name}::{m.name}", code))
+                    code = (f"{ind}let c_ = match cast!(g_.take().unwrap() impl {names}) {{ Some(x) => x, None => {{ {refuse.replace('{PATH}', 'cast')} }} }}; fl.casts += 1;\n"
+                            + call_block(t, m, "let ow = c_;", gr_own, ind))
+                    actions.append((f"cast({names}) {t.name}::{m.name}", code))
+                else:
+                    code = (f"{ind}let mut f_ = match into!(g_.take().unwrap() impl {names}) {{ Some(x) => x, None => {{ {refuse.replace('{PATH}', 'into')} }} }}; fl.casts += 1;\n"
+                            f"{ind}{{\n" + call_block(t, m, "let ow = &mut f_;", gr_ref, ind + "    ") + f"\n{ind}}}\n{ind}drop(f_); r.take();")
+                    actions.append((f"into({names}) {t.name}::{m.name}", code))
+    arms = "\n".join(f"            {i} => {{ // {d}\n{c}\n            }}" for i, (d, c) in enumerate(actions))
+    descs = ", ".join('"%s"' % d.replace('"', "'") for (d, _) in actions)
+
+    # ---- layout words of the group object (C04) -----------------------------------------------
+    m_, k_ = len(mand_names), len(opt_names)
+    lay = ["    let mut opt_ptrs: Vec<(usize, usize, &str)> = Vec::new();"]
+    for i, (_, t) in enumerate(g.opt()):
+        pos = m_ + sorted_opt.index(t.name)
+        if g.enabled >> i & 1:
+            # the cast form is a concrete type that exposes its vtable references; cast and come back
+            lay.append(f"    {{ let before = raw_words(g_.as_ref().unwrap(), {m_ + k_}); let c = match cast!(g_.take().unwrap() impl {t.name}) {{ Some(c) => c, None => return Err(Fail::new(\"C08:refused\", \"cast to the enabled trait {t.name} refused\".to_string())) }}; opt_ptrs.push(({pos}, vt_ptr::<{t.name}Vtbl<'_, _>, _>(&c), \"{t.name}\")); same_words(&before, &raw_words(&c, {m_ + k_}), \"{T}\", \"cast to {t.name}\")?; g_ = Some(c.upcast()); same_words(&before, &raw_words(g_.as_ref().unwrap(), {m_ + k_}), \"{T}\", \"cast to {t.name} and back\")?; }}")
+    lay.append("    let g = g_.as_ref().unwrap();")
+    lay.append(f"    let gbase = g as *const _ as usize; let words = unsafe {{ ::core::slice::from_raw_parts(gbase as *const usize, {m_ + k_}) }};")
+    for (_, t) in g.mand():
+        pos = sorted_mand.index(t.name)
+        lay.append(f"    {{ let p = vt_ptr::<{t.name}Vtbl<'_, _>, _>(g); if words[{pos}] != p {{ return Err(Fail::new(\"C04:group-order\", format!(\"group {T}: the vtable pointer of mandatory trait {t.name} is not at word {pos} (mandatory vtables in name order first); it is at word {{:?}}\", words.iter().position(|w| *w == p)))); }} }}")
+    lay.append(f"    for (pos, p, tn) in opt_ptrs.iter() {{ if words[*pos] != *p {{ return Err(Fail::new(\"C04:group-order\", format!(\"group {T}: the vtable pointer of optional trait {{}} is not at word {{}} (optional vtables in name order after the mandatory ones); it is at word {{:?}}\", tn, pos, words.iter().position(|w| w == p)))); }} }}")
+    for i, (_, t) in enumerate(g.opt()):
+        pos = m_ + sorted_opt.index(t.name)
+        if not (g.enabled >> i & 1):
+            lay.append(f"    if words[{pos}] != 0 {{ return Err(Fail::new(\"C04:group-null\", format!(\"group {T}: the slot of the optional trait {t.name}, which the implementor does not enable, is not null (word {pos})\"))); }}")
+    lay.append(f"    group_container_check(gbase, ::core::mem::size_of_val(g), {m_ + k_}, g.ccont_ref() as *const _ as usize, ::core::mem::size_of_val(g.ccont_ref()), {{ let (o, c) = g.ccont_ref().cobj_base_ref(); (o as *const _ as usize, c as *const _ as usize) }}, inst_size, \"{T}\")?;")
+    lay.append("    verifkit::alloc::exempt(|| drop(opt_ptrs));")
+    layout = "\n".join(lay)
+
+    kinds = g.kinds()
+    karms = []
+    for i, k in enumerate(kinds):
+        def build(expr):
+            return f"let c = {{ use cglue::from2::From2; {T}::from2({expr}) }}; let o = into_opaque_checked(c)?;"
+        if k == "box":
+            karms.append(f"            {i} => {{ {build('imp_w')} run_kind!(o, 16usize, no_ctx); }}")
+        elif k == "box_arcctx":
+            karms.append(f"            {i} => {{ {build('(imp_w, CArc::<CtxPayload>::from(ctx.clone()))')} run_kind!(o, 16usize, arc_live); }}")
+        elif k == "mut":
+            karms.append(f"            {i} => {{ let mut w = imp_w; {{ {build('&mut w')} run_kind!(o, 8usize, no_ctx); }} borrowed_not_dropped(wtok)?; drop(w); }}")
+        elif k == "ref":
+            karms.append(f"            {i} => {{ let w = imp_w; {{ {build('&w')} run_kind!(o, 8usize, no_ctx); }} borrowed_not_dropped(wtok)?; drop(w); }}")
+    karms = "\n".join(karms)
+    return f"""{HEADER}
+{uses}
+use cglue::trait_group::{{GetContainer, CGlueObjBase}};
+
+{decl}
+
+pub struct GImp {{
+    pub core: Core,
+    pub ch_ref: LeafImp,
+    pub ch_mut: LeafImp,
+}}
+impl GImp {{
+    pub fn new(sh: Arc<Shared>, id: u64) -> Self {{
+        GImp {{ core: Core::new(sh, id), ch_ref: LeafImp::new(id ^ 0x1111), ch_mut: LeafImp::new(id ^ 0x2222) }}
+    }}
+}}
+
+{impls}
+
+{impl_group}
+
+pub const NAME: &str = "{T}";
+pub const NMETH: usize = {len(actions)};
+pub const KINDS: &[&str] = &[{', '.join('"%s"' % k for k in kinds)}];
+pub const ACTIONS: &[&str] = &[{descs}];
+const WID: u64 = 0x99;
+
+pub fn run_case(vc: &Ctx, kind: u8, ops: &[(u8, u64)]) -> Result<Flags, Fail> {{
+    let kind = kind as usize % KINDS.len();
+    let (res, rep) = pbsupport::verifkit::tracked_confirmed(|| -> Result<Flags, Fail> {{
+        let mut fl = Flags::default();
+        fl.kind = KINDS[kind];
+        fl.nmeth = NMETH as u32;
+        let sw_ = Shared::new(0x5EED);
+        let sr_ = Shared::new(0x5EED);
+        let (sw, sr): (&Shared, &Shared) = (&sw_, &sr_);
+        let wid = WID;
+        let imp_w = GImp::new(sw_.clone(), WID);
+        let imp_r = GImp::new(sr_.clone(), WID);
+        let wtok = imp_w.core.tok.id();
+        let ctx_arc = Arc::new(CtxPayload(7));
+        let ctx = ctx_arc.clone();
+        let base = 2usize;
+        let cnt = Arc::new(std::sync::atomic::AtomicU64::new(0));
+        let no_ctx = |_: u64, _: &Flags| -> Result<(), Fail> {{ Ok(()) }};
+        let arc_live = |holders: u64, fl: &Flags| -> Result<(), Fail> {{ ctx_count_check(vc, Arc::strong_count(&ctx_arc), base + holders as usize, fl) }};
+        macro_rules! run_kind {{ ($o:expr, $inst_size:expr, $live:ident) => {{{{
+            let live = &$live;
+            let mut g_ = Some($o);
+            let mut r = Some(imp_r);
+            {{
+                let inst_size: usize = $inst_size;
+{layout}
+            }}
+            macro_rules! live_children_check {{ () => {{ live(1 + g_.is_some() as u64, &fl)?; }}; }}
+            for (choice, seed) in ops.iter().copied() {{
+                if g_.is_none() || r.is_none() {{ break; }}
+                let ai = (choice as usize * NMETH) >> 8;
+                fl.calls += 1;
+                fl.methods |= 1 << (ai % 64);
+                match ai {{
+{arms}
+                    _ => unreachable!(),
+                }}
+                if g_.is_some() {{ live(1, &fl)?; }}
+            }}
+            drop(g_);
+        }}}} }}
+        match kind {{
+{karms}
+            _ => unreachable!(),
+        }}
+        ctx_count_end(vc, Arc::strong_count(&ctx_arc), base, cnt.load(SeqCst) as usize, &mut fl)?;
+        Ok(fl)
+    }});
+    let fl = res?;
+    end_of_case_checks(vc, &rep, &fl)?;
+    Ok(fl)
+}}
+"""
